@@ -54,6 +54,8 @@ type rmsg struct {
 	gap            time.Duration
 	// results
 	startErr error
+	atomic   bool  // the caller uses the all-or-nothing Body instead of BodyNonAtomic
+	bodyErr  error // result of the atomic Body
 	rcptErr  map[string]error
 	status   map[string]error
 	bodyDone bool
@@ -194,6 +196,7 @@ func (w *world) gen() {
 		}
 		m.gap = []time.Duration{0, 0, 30 * time.Second, 200 * time.Second}[s.T.Choose(st, 4)]
 		m.utf8 = true
+		m.atomic = s.T.Choose(st, 4) == 0
 		w.msgs = append(w.msgs, m)
 	}
 }
@@ -418,6 +421,19 @@ func (w *world) deliver(i int, m *rmsg) {
 	if m.tlsOverride {
 		h.Add("TLS-Required", "No")
 	}
+	if m.atomic {
+		// a caller that is not per-recipient aware (e.g. a pipeline fed by the
+		// SMTP endpoint): one result for the whole message
+		m.bodyErr = d.Body(ctx, h, buffer.MemoryBuffer{Slice: []byte("body of " + m.id + "\r\n")})
+		m.bodyDone = true
+		if m.bodyErr != nil {
+			s.Logf("driver: %s Body failed: %v", m.id, errSummary(m.bodyErr))
+			d.Abort(ctx)
+		} else {
+			d.Commit(ctx)
+		}
+		return
+	}
 	sc := &collector{m: m}
 	d.(module.PartialDelivery).BodyNonAtomic(ctx, sc, h, buffer.MemoryBuffer{Slice: []byte("body of " + m.id + "\r\n")})
 	m.bodyDone = true
@@ -558,7 +574,7 @@ func (w *world) shape() string {
 		fmt.Fprintf(&sb, "[%s down=%v tls=%v/%v cert=%v rtls=%v tlsa=%s]", m.host, m.down, p.StartTLS, p.TLSFails, p.Cert, p.RequireTLS, m.tlsa)
 	}
 	for _, m := range w.msgs {
-		fmt.Fprintf(&sb, "{%s r=%d rt=%v ov=%v q=%v/%v gap=%v}", m.id, len(m.rcpts), m.requireTLS, m.tlsOverride, m.quarantine, m.quarantineLate, m.gap)
+		fmt.Fprintf(&sb, "{%s r=%d rt=%v ov=%v q=%v/%v at=%v gap=%v}", m.id, len(m.rcpts), m.requireTLS, m.tlsOverride, m.quarantine, m.quarantineLate, m.atomic, m.gap)
 	}
 	return sb.String()
 }
@@ -712,7 +728,7 @@ func (w *world) oracleLimits() {
 				e = "start-failed"
 			case len(m.rcptErr) > 0:
 				e = "rcpt-failed"
-			case len(m.status) > 0:
+			case len(m.status) > 0 || m.bodyErr != nil:
 				e = "data-failed"
 			}
 			ends = append(ends, e)
@@ -733,6 +749,14 @@ func (w *world) oracleC16() {
 		}
 		var se *exterrors.SMTPError
 		if !errors.As(err, &se) {
+			// annotated through Fields() only (the partial-failure summary of
+			// the atomic Body): the reply is built from smtp_code/smtp_enchcode
+			f := exterrors.Fields(err)
+			code, ok1 := f["smtp_code"].(int)
+			ench, ok2 := f["smtp_enchcode"].(exterrors.EnhancedCode)
+			if ok1 && ok2 && code/100 != int(ench[0]) {
+				s.Violate("C16/class-mismatch/remote-"+stage, "remote target error annotated with basic code %d and enhanced code %d.%d.%d: %v", code, ench[0], ench[1], ench[2], f["smtp_msg"])
+			}
 			return
 		}
 		if se.Code/100 != int(se.EnhancedCode[0]) {
@@ -750,5 +774,6 @@ func (w *world) oracleC16() {
 		for _, e := range m.status {
 			check("data", e)
 		}
+		check("data-atomic", m.bodyErr)
 	}
 }
